@@ -79,7 +79,7 @@ MInit == InitCreated /\ msMainTok = 0 /\ msDepTok = [n \in DepNames |-> 0] /\ ms
 MNext == \/ (Next /\ UNCHANGED <<msMainTok, msDepTok, msFirst>>)
          \/ (Steps < MaxSteps /\ CatchUp)
 MNextSample == \/ (NextSample /\ UNCHANGED <<msMainTok, msDepTok, msFirst>>)
-               \/ (Steps < MaxSteps /\ RandomElement(IF Steps >= 0 THEN 1..3 ELSE {}) = 1 /\ CatchUp)
+               \/ (Steps < MaxSteps /\ (\E r \in RE(1..3) : r = 1) /\ CatchUp)
 MSpec == MInit /\ [][MNext]_mvars
 MSpecSample == MInit /\ [][MNextSample]_mvars
 
